@@ -144,6 +144,18 @@ pub fn fe(m: &N) -> BoxedStrategy<Num> {
                 for (i, w) in l.iter().enumerate() { acc += N::from(*w) << (32 * i); }
                 Num(((acc % &m7) * &rinv) % &m7)
             }),
+        // domain-confusion values: +-R^k mod m for k in -3..=3 (R = 2^(64*limbs)) times a small integer:
+        // the elements whose canonical limbs are the Montgomery limbs of 1, 2, ... and vice versa
+        1 => (0u32..7, 1u32..4, any::<bool>()).prop_map({
+            let m = m.clone();
+            move |(k, small, neg)| {
+                let r = (N::one() << (64 * nlimbs)) % &m;
+                let rinv = r.modpow(&(&m - 2u32), &m);
+                let base = if k >= 3 { r.modpow(&N::from(k - 3), &m) } else { rinv.modpow(&N::from(3 - k), &m) };
+                let v = (base * N::from(small)) % &m;
+                Num(if neg { (&m - &v) % &m } else { v })
+            }
+        }),
         // uniform (wide reduce)
         6 => proptest::collection::vec(any::<u8>(), nbytes + 16).prop_map(move |b| Num(N::from_bytes_le(&b) % &m1)),
         // small
@@ -306,6 +318,13 @@ pub fn fq_special() -> BoxedStrategy<Num> {
         // arbitrary element of the 2-Sylow subgroup
         1 => any::<u64>().prop_map(move |e| Num(Q.pow(&g2, &N::from(e & ((1u64 << 47) - 1))))),
         1 => (0u32..64).prop_map(move |s| Num((&q3 - 1u32) / 2u32 + N::from(s))),
+        // +-R^k mod q, k in -2..=2, R = 2^256 (Montgomery-domain confusion)
+        1 => (0u32..5, any::<bool>()).prop_map(|(k, neg)| {
+            let r = (N::one() << 256) % &Q.m;
+            let rinv = Q.inv(&r).unwrap();
+            let v = if k >= 2 { Q.pow(&r, &N::from(k - 2)) } else { Q.pow(&rinv, &N::from(2 - k)) };
+            Num(if neg { Q.neg(&v) } else { v })
+        }),
     ]
     .boxed()
 }
